@@ -419,6 +419,15 @@ class Hist:
                     if key.is_unlocked:
                         ctx.fail(self.suite, 'key still unlocked after the unlock scope ended', case)
                         ok = False
+                    # secrets kept OUTSIDE Python integers (a cached backend key object) are invisible to the graph scan: whatever the
+                    # packet-level private operation can still produce after the scope must not be a signature of the real key
+                    for i, pk in enumerate(pkts(key)):
+                        if i < len(prot) and prot[i] and int(pk._key.pkalg) in (1, 17, 19, 22):
+                            leak = _post_scope_signature(pk._key)
+                            if leak:
+                                ctx.fail(self.suite, 'after the unlock scope ended the key packet still produces a signature that verifies under its public key (%s)' % leak,
+                                         dict(case, packet=i))
+                                ok = False
             if kind in ('X', 'R', 'E', 'S', 'D', 'O'):
                 # key material that is not protected is never touched by entering / leaving a scope or by using the key (e967622)
                 for i, pk in enumerate(pkts(key)):
@@ -510,8 +519,32 @@ REFUSED = [0, 1, 10]     # Plaintext (no cipher), IDEA (insecure: decrypt only),
 S2KHASHES = [1, 2, 3, 8, 9, 10, 11]
 
 
+def _post_scope_signature(pk):
+    """packet-level sign with whatever the key material still holds; returns a description if the result verifies under the public key"""
+    from cryptography.hazmat.primitives import hashes
+    data = b'made after the unlock scope ended'
+    for attempt in ('packet.sign', 'backend'):
+        try:
+            with warnings.catch_warnings():
+                warnings.simplefilter('ignore')
+                if attempt == 'packet.sign':
+                    sigbytes = pk.sign(data, hashes.SHA256())
+                else:
+                    priv = getattr(pk.keymaterial, '_backend_key', None) or getattr(pk.keymaterial, '_privkey', None)
+                    if priv is None:
+                        continue
+                    return 'a cached backend private key object is still attached to the key material'
+                if pk.pubkey().verify(data, sigbytes, hashes.SHA256()) is True or pk.keymaterial.verify(data, sigbytes, hashes.SHA256()) is True:
+                    return attempt
+        except Exception:
+            continue
+    return None
+
+
 def passphrases(rng):
+    # (text passphrases include forms a Unicode normalisation would change: the S2K input is the UTF-8 of the string as given, RFC 4880 3.7.1)
     return ['correct horse', 'p', 'pässwörd-ключ-密碼', 'x' * 1000 + 'é', b'raw\x00octets\xff\xfe', b'\x80' * 40, '', b'',
+            'pa\u0308sswo\u0308rd e\u0301', '\u212b\u2126 ohm', '\uff50\uff57 wide',
             ''.join(chr(rng.randrange(32, 0x2000)) for _ in range(rng.randrange(1, 30)))]
 
 
